@@ -97,6 +97,8 @@ def rs_event(op: list, slot: int, scn: Dict[str, Any], scratch: str) -> List[lis
         return [[at, "m.ackisr", slot, op[2]]]
     if kind == "restart":
         return [[at, "m.restart", slot, os.path.join(scratch, f"snap-{os.getpid()}-{at}.pcsnap"), {}]]
+    if kind == "rewind":
+        return [[at, "m.rewind", slot, os.path.join(scratch, f"snap-{os.getpid()}-{at}.pcsnap"), int(op[2])]]
     if kind == "scramble":
         return [[at, "m.scramble", slot, op[2], op[3], op[4], op[5]]]
     raise HarnessError(f"unknown machine op {kind}")
@@ -324,6 +326,23 @@ def py_apply_op(emu, op: list, scn: Dict[str, Any]):
             except OSError:
                 pass
         return fresh
+    if kind == "rewind":
+        # save, keep running the same object for d more steps, then load the bundle in place
+        path = os.path.join(scratch_dir(), f"pysnap-{os.getpid()}.pcsnap")
+        emu.save_snapshot(path)
+        try:
+            for _ in range(int(op[2])):
+                try:
+                    emu.step()
+                except Exception:
+                    break
+            quiet_load(emu, path)
+        finally:
+            try:
+                os.remove(path)
+            except OSError:
+                pass
+        return emu
     if kind == "scramble":
         from sc62015.pysc62015.emulator import RegisterName as R
         for i, v in enumerate(op[2][:14]):
@@ -373,6 +392,8 @@ def run_py_machine(scn: Dict[str, Any]) -> Dict[str, Any]:
                 emu = new
                 tap = _Tap(emu.memory)
                 evout.append([k, {"loaded": True}])
+            elif ops[oi][1] == "rewind":
+                evout.append([k, {"loaded": True, "in_place": True}])
             oi += 1
         cur = obs[-1]
         if had:
